@@ -1,9 +1,11 @@
 import logging
 import itertools
 import math
+import re
 import signal
 from enum import Enum
 from qbee import grammar
+from qbee.exceptions import SyntaxError as QbSyntaxError
 from pyparsing.exceptions import ParseException
 from .instrs import op_code_to_instr
 from .utils import format_number
@@ -1215,6 +1217,13 @@ class QvmCpu:
             value = float(literal.eval())
         except ParseException:
             value = 0.0
+        except QbSyntaxError:
+            # the literal syntax refuses e.g. unsuffixed integers
+            # beyond LONG; VAL returns a DOUBLE, which can hold them.
+            m = re.match(r'\s*[+-]?([0-9]+[.]?[0-9]*|[.][0-9]+)'
+                         r'([eEdD][+-]?[0-9]+)?', string)
+            value = float(m.group(0).lower().replace('d', 'e')) \
+                if m else 0.0
         self.push(CellType.DOUBLE, value)
 
     def _exec_sign(self):
